@@ -77,6 +77,26 @@ namespace cdsv {
                 }
             }
         }
+        // same, but gives up after `seconds` of wall clock (returns false; the barrier is then unusable)
+        bool wait_for( double seconds )
+        {
+            unsigned g = m_gen.load( std::memory_order_acquire );
+            if ( m_count.fetch_add( 1, std::memory_order_acq_rel ) + 1 == m_n ) {
+                m_count.store( 0, std::memory_order_relaxed );
+                m_gen.fetch_add( 1, std::memory_order_release );
+                return true;
+            }
+            double t0 = wall_now();
+            unsigned spins = 0, polls = 0;
+            while ( m_gen.load( std::memory_order_acquire ) == g ) {
+                if ( ++spins > 200 ) {
+                    sched_yield(); spins = 0;
+                    if ( ++polls > 1000 ) { polls = 0; if ( wall_now() - t0 > seconds ) return false; }
+                }
+                else __asm__ __volatile__( "pause" ::: "memory" );
+            }
+            return true;
+        }
     };
 
     // ---------------------------------------------------------------- JSON helpers
